@@ -301,7 +301,13 @@ class Body:
     def op_expr(self, op, depth=10):
         if "const" in op:
             c = op["const"]
-            return ("const", norm(c.get("def") or c.get("fn")), c.get("int"), c.get("str"), c["ty"])
+            iv = c.get("int")
+            if iv is None and c.get("tyconst"):
+                # pattern-type / valtree constants print as `100_u16 is 1..`
+                m = re.match(r"^(-?\d+)_[iu](\d+|size)", c["tyconst"])
+                if m:
+                    iv = int(m.group(1))
+            return ("const", norm(c.get("def") or c.get("fn")), iv, c.get("str"), c["ty"])
         p = op.get("copy") or op.get("move")
         if p is None:
             return ("other", str(op))
